@@ -708,7 +708,9 @@ impl RenderNode {
                 }
                 SizeEstimate {
                     size: len,
-                    min_width: len.min(context.min_wrap_width),
+                    // Non-empty text needs at least one column, even with
+                    // min_wrap_width(0).
+                    min_width: len.min(context.min_wrap_width.max(1)),
                     prefix_size: 0,
                 }
             }
